@@ -305,6 +305,12 @@ def entries(seed=0):
                 B2 = np.diag(1.0 + r.random(n2))
                 sigs = [S("A", sps.csc_matrix(A2)), S("B", sps.csc_matrix(B2))]
                 kw = dict(nmodes=3, sigma=0.5, hermitian=True)
+            elif kind == "sparse_noshift":
+                n2 = 8
+                M2 = r.random((n2, n2)) * (np.abs(np.subtract.outer(range(n2), range(n2))) < 2)
+                A2 = M2 + M2.T + np.diag(np.arange(n2) * 2.0 + 4)      # positive definite: the default shift 0 is below the spectrum
+                sigs = [S("A", sps.csc_matrix(A2))]
+                kw = dict(nmodes=3, hermitian=True)
             m = pym.EigenSolve(sigs, **kw)
             return m, sigs, m.sig_out
         return fn
@@ -312,6 +318,7 @@ def entries(seed=0):
     add("EigenSolve/dense_generalized", eig("dense_gen"), tol=1e-7, tags=("eigen",))
     add("EigenSolve/dense_nonsym", eig("dense_nonsym"), tol=1e-7, tags=("eigen",))
     add("EigenSolve/sparse_generalized", eig("sparse_gen"), tol=1e-6, tags=("eigen", "iterative"))
+    add("EigenSolve/sparse_standard_noshift", eig("sparse_noshift"), tol=1e-6, tags=("eigen", "iterative"))
 
     # ---- aggregation and scaling -----------------------------------------------------------
     def agg(cls, **kw):
